@@ -18,6 +18,7 @@ ops:
                                         ptt.SetupNewUser with a stale .fresh: the clean-up sweep (tryCleanUser → killUser)
                                         removed the accounts in <killed> (observed, ascending); <slot> as for newuser
   resetconc <G> <N> <seed>              concurrent stress (judged by the oracle only; the model answers `done`)
+  setuserid <uid> <id>                  cache.SetUserID: rename / re-assign a slot (no balance may move)
   chemail <uid> <text>                  ptt.ChangeEmail: a field writer (the Email field of the record, nothing else)
   resetconcfld <G> <N> <seed>           field writers (ptt.ChangePasswd, ptt.ChangeEmail) racing with money writers on the SAME users
   resetconcrec <G> <N> <seed>           the same with whole-record writers, readers and a registrar
@@ -239,6 +240,14 @@ def stepC20 (d : DState) (ws : List String) : DState × String :=
           if 1 ≤ g ∧ 2 * g ≤ Gen.Money.maxUsers ∧ 1 ≤ n ∧ n ≤ 100000 then ({ st := none, stale := [], ids := [], cd := true }, "done")
           else (st, "bad-op")
       | _, _, _ => (st, "bad-op")
+  | ["setuserid", u, id] =>
+      match st.st, parseI32 u with
+      | some s, some u =>
+          if ¬ isIdent id then (st, "bad-op") else
+          let r := setUserID s u
+          let ids' := if r.2 == .none then st.ids.set (u - 1).toNat (copyInto Gen.Money.userIDSize (id.toList.map Char.toNat)) else st.ids
+          ({ st with st := some r.1, ids := ids' }, showErr r.2 ++ " " ++ observe2 r.1 u)
+      | _, _ => (st, "bad-op")
   | ["chemail", u, text] =>
       match st.st, parseI32 u with
       | some s, some u =>
